@@ -27,7 +27,7 @@ if __name__ == '__main__':
         for o in x['obligations']:
             if o['status'] != 'discharged':
                 print('     ', o['status'], o['id'], '#%d' % o['ordinal'], 'L%d' % o['lineno'], o['result'], o['reason'][:40], '|', o['goal'][:200].replace('\n', ' '))
-        print('      vac', x['vacuity'])
+        print('      vac', x['vacuity'], 'explore_proof', x.get('t_explore_proof'), 'discharge', x.get('t_discharge'), 'explore_finite', x.get('t_explore_finite'))
     for x in res:
         for o in x['obligations']:
             if o['seconds'] > 1.5: print('SLOW %.1fs' % o['seconds'], o['id'], o['ordinal'], 'L%d' % o['lineno'], o['result'])
